@@ -10,6 +10,9 @@ CLAIMED = {
  "C02": dict(tech="Colang front-end + CFG paths with three-valued guard evaluation; one-shot flag typestate; flag pairing over normal and failure exits; who-may-write + reachability/taint for the skip flag; reject=>stop typestate",
              text="Decides the structure of the output-rails gate for all abstract configurations (skip x flows x options) and all paths of the shipped flows, the one-shot consumption of the skip flag and its single untainted writer, reject=>stop in every shipped output rail, and in Colang 2 the gate in `_bot_say` plus reset of the re-entrancy flag on every exit including failure exits. Found and repaired F1, F2.",
              ref="DESIGN.md C02"),
+ "C03": dict(tech="exception-containment query over lexical try nesting + handler CFG; def-use dominance (must-pass-through) of the failed-status replacement; abstract evaluation of every shipped Colang 2 rail under action result None; flag pairing over failure exits",
+             text="Decides containment of every expression that can run user action code in the dispatcher (all call sites, not sampled faults), the failed=>internal-error dominance in both runtimes, and fail-closed behaviour of every shipped Colang 2 blocking rail when its action fails. Found and repaired F3; F4 (5 rails that pass on a failed action) are listed known findings.",
+             ref="DESIGN.md C03"),
 }
 NA = {
  "C18": "equality of string results over all chunkings of a stateful transducer; no structural necessary condition that is not a brittle proxy (DESIGN.md C18)",
